@@ -24,7 +24,9 @@ git apply $PATCH
 if go test -vet=off -count=1 -run "^($TESTS)\$" ./$PKG/ >>$LOG 2>&1; then echo "$ID-$N: DEMO PASSES WITH PATCH"; exit 6; else echo "demo fails with patch" >>$LOG; fi
 # 3. suite with patch (without the demo)
 rm $PKG/zz_seed_demo_test.go
-if go build ./... >>$LOG 2>&1 && go test -vet=off -count=1 ./... >>$LOG 2>&1; then echo "suite passes with patch" >>$LOG; else echo "$ID-$N: SUITE FAILS WITH PATCH"; exit 7; fi
+suite() { go build ./... >>$LOG 2>&1 && go test -vet=off -count=1 ./... >>$LOG 2>&1; }
+# the repository's nclient6 tests are flaky under load ("panic: connection refused" in their own handler): retry once
+if suite || { echo "suite failed once, retrying" >>$LOG; suite; }; then echo "suite passes with patch" >>$LOG; else echo "$ID-$N: SUITE FAILS WITH PATCH"; exit 7; fi
 git checkout -- go.mod go.sum 2>/dev/null
 git diff > $OUT/patch.diff
 cp $DEMO $OUT/
